@@ -1198,10 +1198,17 @@ def defer_rules(chk, pid, modules=("bt/core.py", "bt/algos.py"), only_hosts=None
                     continue
                 is_stale = c.kind == "write" and c.field == R.STALE and canon(c.value) == canon(sym.TRUE) and c.obj[0] == "fld" and c.obj[2] == "root"
                 is_update = c.kind == "call" and c.name == "update" and c.recv is not None and c.recv[0] == "fld" and c.recv[2] == "root"
-                if not (is_stale or is_update):
+                # a later mutator call that is NOT deferred (update=True / default / the host's own flag) marks the tree stale itself
+                is_handoff = False
+                if c.kind == "call" and c.name in MUTATOR_NAMES and c.recv is not None:
+                    cu = bound_args(c, chk.prog).get("update", sym.TRUE)
+                    is_handoff = canon(cu) in (canon(sym.TRUE), canon(("param", "update")))
+                if not (is_stale or is_update or is_handoff):
                     continue
                 extra = [l for l in plain(c.guard) if not sym.lit_holds(sym.sat(e.guard), l[0], l[1])]
                 own_update = [l for l in extra if canon(l[0]) == canon(("param", "update")) and l[1]]
+                if is_handoff and canon(bound_args(c, chk.prog).get("update", sym.TRUE)) == canon(("param", "update")):
+                    own_update = own_update  # the flag itself carries the obligation to the caller
                 if len(extra) == len(own_update) and loops_prefix(c.loops, e.loops):
                     closers.append(c)
             key = "deferred:%s" % e.name
@@ -1459,7 +1466,7 @@ RAW_READ_EXCEPTIONS = {
 
 FRESH_HOSTS = {
     "C01": lambda f: f.name == "update" and f.module == CORE,
-    "C08": lambda f: True,
+    "C08": lambda f: f.name == "update" and f.module == CORE,
     "C06": lambda f: f.qual in ("StrategyBase.rebalance", "StrategyBase.close", "StrategyBase.flatten", "Rebalance.__call__", "RebalanceOverTime.__call__"),
     "C17": lambda f: f.qual in ("StrategyBase.rebalance", "Rebalance.__call__"),
     "C16": lambda f: f.qual in ("StrategyBase.flatten", "StrategyBase.close", "StrategyBase.update"),
